@@ -515,7 +515,10 @@ def csv_oracle_tables(o0, text, sep=','):
 
 
 def away_from_ties(x):
-    """numpy.round(x, 8) is rint(x * 1e8) / 1e8 in binary arithmetic; the model rounds exactly: keep cells off the .5 boundary"""
+    """numpy.round(x, 8) is rint(x * 1e8) / 1e8 in binary arithmetic; the model rounds exactly: keep cells off the .5 boundary
+    (and -0.0 -> 0.0). Only for the cases submitted to the Coq model; the round-trip oracle keeps the raw values."""
+    if isinstance(x, float) and x == 0.0:
+        return 0.0                      # the model's cells are rationals: the sign of a zero is not part of the abstraction
     if isinstance(x, float) and x == x and abs(x) < 1e15:
         f = (abs(x) * 1e8) % 1.0
         if abs(f - 0.5) < 1e-3:
